@@ -55,6 +55,19 @@ def run(cmd, cwd=None, env=None, timeout=None, stdin=None, limit_mem=False):
         return -9, (e.stdout or b'').decode('utf-8', 'replace'), (e.stderr or b'').decode('utf-8', 'replace'), time.time() - t0
 
 
+def trim_build_cache(min_free_gb=30):
+    """Every rendered package leaves objects in the Go build cache (tens of GB after a day of runs; Go itself only trims
+    entries older than five days).  When the disk that holds the cache runs low, empty the cache before building."""
+    try:
+        rc, so, se, dt = run(['go', 'env', 'GOCACHE'])
+        d = so.strip()
+        if rc == 0 and d and os.path.isdir(d) and shutil.disk_usage(d).free < min_free_gb << 30:
+            log('less than %d GB free on the disk of the Go build cache: go clean -cache' % min_free_gb)
+            run(['go', 'clean', '-cache'], timeout=1800)
+    except Exception as e:       # never a reason to fail a check
+        log('build cache not trimmed: %s' % e)
+
+
 # ---------------------------------------------------------------- wire binary
 def build_wire(sc, tags='verif'):
     out = sc.path('wire')
